@@ -209,8 +209,8 @@ def deep_state(node, _seen=None):
 
 
 def build_any(spec, opt):
-    """spec: a JSON-like document, or ('xml', xml_spec) / ('plist', doc) / ('csv', csv_spec) / ('pyobj', doc)."""
-    if isinstance(spec, (tuple, list)) and len(spec) == 2 and spec[0] in ('xml', 'plist', 'csv', 'pyobj', 'mset'):
+    """spec: a JSON-like document, or ('xml', xml_spec) / ('plist', doc) / ('csv', csv_spec) / ('pyobj', doc) / ('pyast', source)."""
+    if isinstance(spec, (tuple, list)) and len(spec) == 2 and spec[0] in ('xml', 'plist', 'csv', 'pyobj', 'mset', 'pyast'):
         kind, x = spec
         if kind == 'xml':
             return build_xml(x), 'xml'
@@ -221,6 +221,12 @@ def build_any(spec, opt):
             return PLISTNode(build(x, opt)), 'plist'
         if kind == 'mset':
             return build_multiset(x, opt), 'json'
+        if kind == 'pyast':
+            # Python source -> ast -> tree of data-class nodes (Assignment, Call, Import, Subscript, ...)
+            import ast
+            import graphtage
+            from graphtage import pydiff
+            return pydiff.ast_to_tree(ast.parse(x), graphtage.BuildOptions(**opt)), 'json'
         if kind == 'pyobj':
             from graphtage import pydiff
             import graphtage
@@ -246,3 +252,17 @@ def canon(node):
     if isinstance(node, (graphtage.MultiSetNode, graphtage.MappingNode)):
         return ('unordered', tuple(sorted(kids, key=repr)))
     return (type(node).__name__.replace('Edited', ''), tuple(kids))
+
+
+def pyast_sources():
+    """Small Python modules whose trees are made of data-class nodes: assignments of scalars, lists, dicts with renamed keys,
+    calls, imports, subscripts, attribute access; one and several statements."""
+    vals = ["'hello world'", "'hello wurld!'", "[1, 2, 'three', 4]", "[1, 'two', 'three', 5, 6]", "{'name': 'alpha', 'port': 8080}",
+            "{'name': 'alpha-2', 'port': 8081}", "{'hostname': 'alpha.example.org'}", "{'host_name': 'alpha.example.com'}",
+            "{'hostname': 'alpha.example.org', 'ports': [80, 443], 'debug': 0}", "{'host_name': 'alpha.example.com', 'port_list': [80, 8443], 'debug': 0}",
+            "{'colour': 'red'}", "{'color': 'dark red'}", "{}", "[]", "{1, 2}", "(1, 'b')", "None", "{'a': {'b': 1}}", "{'a': {'c': 2}, 'd': []}"]
+    out = [f"{t} = {v}" for v in vals for t in ('cfg', 'config')[:1 + (len(v) % 2)]]
+    out += ["f(1, 'a')", "g(1, 'b', [2])", "obj.method({'k': 1})", "obj.method({'j': 2}, 3)", "from os import path", "from os import path as p, sep",
+            "x = d['key']", "x = d['other'][0]", "x = a.b.c", "x = a.b.d",
+            "from m import f\ncfg = {'hostname': 'a.example.org'}\nf(cfg, 1)", "from m import g\ncfg = {'host_name': 'a.example.com'}\ng(cfg)\nh()"]
+    return out
